@@ -43,7 +43,9 @@ def RULE(tier):
         "{two targets, two targets with regions, one shared target with separated / abutting regions, one region tuple for both; the SAME source object twice into two targets / one shared target} x lock x mode x "
         "{sync + FIFO and newest-first completion + every completion order with <= 1 deviation" + ("" if tier == "thorough" else " (quick: only for lock=True)") + "}. Oracle: target == -1-filled reference with reference[region] = source "
         "(cells outside the region untouched), nothing written before the deferred compute, returned arrays equal the source with the source's chunks. "
-        "to_npy_stack/from_npy_stack: every chunking x every axis x mmap_mode x dtype: values, dtype and the chunks along the stacking axis are reproduced. "
+        "to_npy_stack/from_npy_stack: every chunking x every axis x mmap_mode x dtype: values, dtype and the chunks along the stacking axis are reproduced; plus every chunking of 11 and 12 elements into >= 11 blocks. "
+        "Mutual exclusion: a rendezvous target (a writer inside __setitem__ waits for a second one) x {one source, two sources into one target, two targets} x {True, Lock, SerializableLock}: "
+        "no two writes into one target overlap; under an explicit lock object no two writes overlap at all. "
         "non-trivial = some source has >= 2 chunks."
     )
 
@@ -97,6 +99,8 @@ def shards(tier):
                 out.append(("s2", n1, n2, part))
     for shp in [(n,) for n in range(0, NMAX1[tier] + 2)] + [(2, 2), (2, 3), (3, 2), (2, 2, 2)] + ([(3, 4), (2, 3, 2)] if tier == "thorough" else []):
         out.append(("npy", shp))
+    out.append(("npy_many",))
+    out.append(("excl",))
     return out
 
 
@@ -135,6 +139,24 @@ def cases_of(shard, tier):
                             i += 1
                             if i % S2PARTS[tier] == part:
                                 yield ("s2", n1, ch1, n2, ch2, layout, lock, mode)
+    elif kind == "npy_many":
+        # >= 11 blocks along the stacking axis: block numbers with different digit counts (file names 0.npy .. 10.npy ..)
+        for n in (11, 12):
+            for ch in enums.compositions(n):
+                if len(ch) < 11:
+                    continue
+                for mmap in ("r", None):
+                    for sc in ("sync", "threads"):
+                        yield ("npy", (n,), (tuple(ch),), 0, mmap, "i8", sc)
+        for shp, ch, axis in [((12, 2), ((1,) * 12, (2,)), 0), ((2, 11), ((1, 1), (1,) * 11), 1), ((2, 11), ((2,), (1,) * 11), 1)]:
+            for dt in ("i8", "f8"):
+                yield ("npy", shp, ch, axis, "r", dt, "sync")
+    elif kind == "excl":
+        # mutual exclusion of the writes: a rendezvous target makes two writers overlap whenever the lock setting lets them
+        for layout in ("one", "same", "two"):
+            for lock in (True, "lock", "serializable"):
+                for ch in ((1, 1), (2, 1)):
+                    yield ("excl", layout, lock, ch)
     elif kind == "npy":
         shp = shard[1]
         for ch in enums.chunkings(shp):
@@ -381,8 +403,96 @@ def run_npy(case, ctx):
         ctx.violation("npy_stack:wrong-value", case, why)
 
 
+EXCL_WAIT_S = 0.4
+
+
+class _Book:
+    def __init__(self):
+        self.mu = threading.Lock()
+        self.inside = {}
+        self.total = 0
+        self.overlap_same = False
+        self.overlap_any = False
+        self.ev_same = threading.Event()
+        self.ev_any = threading.Event()
+
+
+class _Rendezvous:
+    """array-like target: a writer that has entered __setitem__ waits (bounded) for a second writer to enter as well; with a working lock
+    the second one cannot, without one it does -- so an overlap that the lock setting allows DOES happen and is recorded"""
+
+    def __init__(self, t, book, wait_any):
+        self.t, self.book, self.wait_any = t, book, wait_any
+        self.shape, self.dtype, self.ndim = t.shape, t.dtype, t.ndim
+
+    def __setitem__(self, k, v):
+        b = self.book
+        with b.mu:
+            b.inside[id(self)] = b.inside.get(id(self), 0) + 1
+            b.total += 1
+            if b.inside[id(self)] > 1:
+                b.overlap_same = True
+                b.ev_same.set()
+            if b.total > 1:
+                b.overlap_any = True
+                b.ev_any.set()
+        (b.ev_any if self.wait_any else b.ev_same).wait(EXCL_WAIT_S)
+        self.t[k] = v
+        with b.mu:
+            b.inside[id(self)] -= 1
+            b.total -= 1
+
+
+def run_excl(case, ctx):
+    """store docstring: lock=True locks each target, a Lock object is 'shared among all writes'.  Oracle: with lock=True no two writes
+    into the SAME target overlap; with an explicit lock object no two writes of the call overlap at all; the data arrive."""
+    import dask.array as da
+
+    _, layout, lock, ch = case
+    n = sum(ch)
+    x1 = arr.data((n,), ctx.seed)
+    x2 = arr.data((n,), ctx.seed + 1, lo=100)
+    book = _Book()
+    explicit = lock is not True
+    if layout == "one":
+        sources, xs = [da.from_array(x1, chunks=(ch,))], [x1]
+        raw = [np.full(n, FILL, dtype="i8")]
+        targets, regions = [_Rendezvous(raw[0], book, explicit)], [None]
+    elif layout == "same":
+        sources, xs = [da.from_array(x1, chunks=(ch,)), da.from_array(x2, chunks=(ch,))], [x1, x2]
+        raw = [np.full(2 * n, FILL, dtype="i8")]
+        t = _Rendezvous(raw[0], book, explicit)
+        targets, regions = [t, t], [(slice(0, n),), (slice(n, 2 * n),)]
+    else:
+        sources, xs = [da.from_array(x1, chunks=(ch,)), da.from_array(x2, chunks=(ch,))], [x1, x2]
+        raw = [np.full(n, FILL, dtype="i8"), np.full(n, FILL, dtype="i8")]
+        targets, regions = [_Rendezvous(r, book, explicit) for r in raw], [None, None]
+    ctx.case(case, nontrivial=True, outcome=("excl", layout, str(lock)))
+    try:
+        da.store(sources, targets, lock=make_lock(lock), regions=regions if layout == "same" else None, scheduler="threads", num_workers=4)
+    except Hang:
+        raise
+    except Exception as e:  # noqa: BLE001
+        ctx.violation(f"excl:dask-raises:{type(e).__name__}", case, repr(e))
+        return
+    if book.overlap_same:
+        ctx.violation("excl:writes-into-one-target-overlap", case, f"lock={lock!r}: two __setitem__ calls were inside the same target at the same time")
+    elif explicit and book.overlap_any:
+        ctx.violation("excl:writes-overlap-under-shared-lock", case, f"lock={lock!r} (one lock object for all writes): two writes overlapped")
+    want = np.concatenate(xs) if layout == "same" else None
+    if layout == "same":
+        if not np.array_equal(raw[0], want):
+            ctx.violation("excl:wrong-target", case, f"{raw[0].tolist()} expected {want.tolist()}")
+    else:
+        for r, x in zip(raw, xs):
+            if not np.array_equal(r, x):
+                ctx.violation("excl:wrong-target", case, f"{r.tolist()} expected {x.tolist()}")
+
+
 def run_case(case, ctx):
-    if case[0] == "npy":
+    if case[0] == "excl":
+        run_excl(case, ctx)
+    elif case[0] == "npy":
         run_npy(case, ctx)
     else:
         run_store(case, ctx)
